@@ -1031,7 +1031,8 @@ rrul_fill_yly(echs_instant_t *restrict tgt, size_t nti, rrulsp_t rr)
 		echs_shift_bday_p(rr->shift) && !echs_shift_neg_p(rr->shift);
 
 	/* fill up the array the hard way */
-	for (res = 0UL, tries = 64U; res < nti && --tries; y += rr->inter) {
+	for (res = 0UL, tries = 64U;
+	     res < nti && --tries && y < 2100U; y += rr->inter) {
 		bitint383_t cand[3U] = {0U};
 		int yd;
 
@@ -1242,7 +1243,7 @@ rrul_fill_mly(echs_instant_t *restrict tgt, size_t nti, rrulsp_t rr)
 	}
 
 	/* fill up the array the hard way */
-	for (res = 0UL, tries = 64U; res < nti && --tries;
+	for (res = 0UL, tries = 64U; res < nti && --tries && y < 2100U;
 	     ({
 		     do {
 			     if ((m += rr->inter) > 12) {
